@@ -2218,15 +2218,14 @@ namespace xsimd
         zip_hi(batch<T, A> const& self, batch<T, A> const& other, requires_arch<avx512f>) noexcept
         {
             __m512i lo, hi;
-            XSIMD_IF_CONSTEXPR(sizeof(T) == 1)
+            XSIMD_IF_CONSTEXPR(sizeof(T) <= 2)
             {
-                assert(false && "not implemented yet");
-                return {};
-            }
-            else XSIMD_IF_CONSTEXPR(sizeof(T) == 2)
-            {
-                assert(false && "not implemented yet");
-                return {};
+                // no 8/16-bit unpack without AVX512BW: interleave the upper 256-bit halves with the avx2 kernels
+                __m256i self_low, self_high, other_low, other_high;
+                detail::split_avx512(self, self_low, self_high);
+                detail::split_avx512(other, other_low, other_high);
+                batch<T, avx2> self_half(self_high), other_half(other_high);
+                return detail::merge_avx(zip_lo(self_half, other_half, avx2 {}), zip_hi(self_half, other_half, avx2 {}));
             }
             else XSIMD_IF_CONSTEXPR(sizeof(T) == 4)
             {
@@ -2286,15 +2285,14 @@ namespace xsimd
         zip_lo(batch<T, A> const& self, batch<T, A> const& other, requires_arch<avx512f>) noexcept
         {
             __m512i lo, hi;
-            XSIMD_IF_CONSTEXPR(sizeof(T) == 1)
+            XSIMD_IF_CONSTEXPR(sizeof(T) <= 2)
             {
-                assert(false && "not implemented yet");
-                return {};
-            }
-            else XSIMD_IF_CONSTEXPR(sizeof(T) == 2)
-            {
-                assert(false && "not implemented yet");
-                return {};
+                // no 8/16-bit unpack without AVX512BW: interleave the lower 256-bit halves with the avx2 kernels
+                __m256i self_low, self_high, other_low, other_high;
+                detail::split_avx512(self, self_low, self_high);
+                detail::split_avx512(other, other_low, other_high);
+                batch<T, avx2> self_half(self_low), other_half(other_low);
+                return detail::merge_avx(zip_lo(self_half, other_half, avx2 {}), zip_hi(self_half, other_half, avx2 {}));
             }
             else XSIMD_IF_CONSTEXPR(sizeof(T) == 4)
             {
